@@ -35,12 +35,13 @@ func init() {
 	core.Register(&core.Prop{
 		ID:    "C05",
 		Level: "exploration",
-		Rule: "one case = one base image (60% rich documents built with the high-level packages: 1..3 pages, simple/composite TrueType and standard fonts, Flate and DCT images, outline, name tree, optional encryption; 40% C02-style object soups) " +
+		Rule: "one case = one base image (60% rich documents built with the high-level packages: 1..3 pages, simple/composite TrueType and standard fonts, Flate and DCT images, outline, name tree, optional encryption, optionally diamond-shaped name trees/outlines and hostile ToUnicode CMaps; C02-style object soups incl. pre-encoded DCT/JBIG2/CCITT streams; revision histories from the independent serialiser) " +
 			"x 0..4 corruptions of the stored image (bit flip, byte run overwrite, zeroed sector, misdirected block, duplicated block, truncation, and token-level edits of the numbers after /Length /Prev /Size /W /Index /N /First /Count /Root /Kids /Parent, of startxref, of reference targets - rewiring into cycles -, of /Filter and /DecodeParms values) " +
 			"x ReaderErrorHandling mode x read personality; the walker then runs NewReader, SequentialScan+MakeReader, Get of every object number, DecodeStream+bounded drain of every stream, pagetree.Iterator, page.Decode, extract.Font, GlyphNameMapping, reader.ProcessPage, outline and name-tree walks inside a synctest bubble. " +
 			"non-trivial = at least one corruption applied and the header survived; distinct = hash of (base description, corruption list, mode).",
 		Assumptions: []string{
-			"termination: deterministic step caps (objects fetched, bytes drained) plus the wall-clock watchdog with confirmation in a fresh process; a pure CPU spin is only seen by the watchdog",
+			"time is simulated: one tick per function entry and loop iteration in every package of the repository (counter inserted by a build overlay, no hook in /repo); ticks outside internal/filter/** (the decoders' share is bounded by C08) <= 24Mi*(1+pages+fonts) + 4096*(len(image)+bytes drained), calibrated on the unchanged tree (peak 13M ticks in 24000 runs); a name-tree iteration is abandoned by the harness only after 2^32 ticks and then reported",
+			"termination of loops inside a single library call: wall-clock watchdog with confirmation in a fresh process",
 			"memory: runtime.MemStats.TotalAlloc delta <= 64 MiB + 40*len(image) + 16*bytes drained + 3*(sum of StreamBudget(rawLen) over the streams opened); a coarse measured proxy, not an instrumented allocator",
 			"goroutines: exact - when the walker returns, every goroutine started inside the bubble must have exited",
 		},
